@@ -7,6 +7,10 @@ import numpy as np
 from ..core import CTX, attempt, held, violated, short, scribble
 
 PROP = "C13"
+LEVEL_TEXT = 'Python big-int oracle sum(a[i+j] << b*j); sweep over (b, lengths around register multiples, every w); all observations on the same packed object in a case-given order with unpack() re-checked at the end; results of list indexing exercised as packed arrays. Exploration.'
+LEVEL_NOTE = "trusts numpy 2.x, CPython (copy.copy, slice semantics, big ints) and the reference model in rtmon/props/c13.py; decides the executions it produces, nothing more"
+TECHNIQUE = 'runtime monitoring: reference-model oracle (Python integer arithmetic) + same-object observation sequences'
+DESIGN_REF = "DESIGN.md sections 0, 5 (C13), 7"
 RULE = ("case = (bits b, length, input dtype, values, window w, positions, order of observations); systematic sweep over "
         "(b, length around multiples of 64/b, w) + seeded random; distinct = hash of the case; non-trivial = length > 64/b (more than one register) or w > 1")
 ASSUMPTIONS = ["values fit in b bits and are non-negative; window sizes satisfy w*b <= 64 and w <= length"]
